@@ -1,12 +1,18 @@
-"""C04 — per-container contracts (see props/containers_common.py and gen/containers.py)."""
+"""C04 — out-of-domain field values are rejected: per-container contracts (enum members at full wire width, fixed-size
+bodies) + the opcode-dispatch slices (unknown opcodes)."""
 from props import containers_common as cc
+from gen import opcodes
 
 PROP = "C04"
 
 
+def extra(scratch):
+    return [opcodes.batch(scratch)]
+
+
 def check(tier, seed):
-    return cc.run_check(PROP, tier, seed)
+    return cc.run_check(PROP, tier, seed, extra_batches=extra)
 
 
 def replay(path):
-    return cc.replay(PROP, path)
+    return cc.replay(PROP, path, extra_batches=extra)
